@@ -59,7 +59,29 @@ func askPeVerify(c *Ctx, img []byte, cert *x509.Certificate) (string, string) {
 	if !strings.HasPrefix(r, "model=") || mi < 0 {
 		return "driver:" + r, "?"
 	}
-	return r[len("model="):mi], r[mi+len(" spec="):]
+	sp := r[mi+len(" spec="):]
+	if li := strings.Index(sp, " len="); li >= 0 {
+		sp = sp[:li]
+	}
+	return r[len("model="):mi], sp
+}
+
+// askPeVerifyLenient: (model, strict Spec verdict, tolerant Spec verdict). The tolerant reading stops at the first
+// position of the certificate table that cannot hold an entry instead of rejecting the table; it is what
+// "success => the image carries such a signature" is judged by (bytes behind the last entry are unsigned).
+func askPeVerifyLenient(c *Ctx, img []byte, cert *x509.Certificate) (string, string, string) {
+	r := c.Drv.Ask("pe.verify", append([]string{hx(img), badCertsArg(c, img)}, certArgs(cert)...)...)
+	mi := strings.Index(r, " spec=")
+	if !strings.HasPrefix(r, "model=") || mi < 0 {
+		return "driver:" + r, "?", "?"
+	}
+	sp := r[mi+len(" spec="):]
+	ln := sp
+	if li := strings.Index(sp, " len="); li >= 0 {
+		ln = sp[li+len(" len="):]
+		sp = sp[:li]
+	}
+	return r[len("model="):mi], sp, ln
 }
 
 // the 32-byte digest embedded in an Authenticode signature blob, located independently of the library
